@@ -250,7 +250,7 @@ PROPS["C19"] = dict(
                "distinct copies, and leave non-receiver operands unchanged: field elements of all 23 fields (Add, Sub, Mul, Square, Neg, "
                "Double, Set, Select, Butterfly; full-width symbolic words), G1 points of 9 curves (Jacobian AddAssign/SubAssign/Double/Neg, "
                "affine Add/Sub/Neg in every alias pattern, extended add/double), E2/E6/E12 of the three 12-towers (ring operations, "
-               "Inverse, Div, Conjugate, non-residue products, Frobenius maps, CyclotomicSquare).",
+               "Inverse, Div, Conjugate, non-residue products, Frobenius maps, CyclotomicSquare; E6.MulByE2 also with the E2 operand inside the receiver).",
     level_note="Both executions are symbolic over the same inputs (field level: machine words with shared uninterpreted products; "
                "curve/tower level: base-field elements as reals); equality of results is decided by the solver or syntactically.",
     bounds="none on operands",
